@@ -285,6 +285,16 @@ def make_case(prop, rng, tier, opts=None):
         T = t_in + rng.choice([30, 60, 120, 300])
     else:
         T = rng.choice([20, 40, 80])
+    bad_index = None
+    if prop == "C15" and rng.random() < 0.12:
+        # an out-of-range answer from a user selector must surface as an error, never be wrapped or ignored
+        cands = [n for n in g.nodes if n["type"] in ("machine", "source", "splitter", "combiner")]
+        n = rng.choice(cands)
+        side = rng.choice(["out", "in"]) if n["type"] in ("machine", "splitter") else "out"
+        cnt = sum(1 for e in g.edges if (e["src"] if side == "out" else e["dst"]) == n["id"])
+        good = [rng.randrange(cnt) for _ in range(rng.randint(0, 3))]
+        n[side + "_sel"] = {"form": rng.choice(["callable", "generator"]), "vals": good + [rng.choice([cnt, cnt + 1, -1, -2])]}
+        bad_index = {"node": n["id"], "side": side, "position": len(good)}
     invalid = None
     if opts.get("invalid") and rng.random() < opts["invalid"]:
         invalid = inject_invalid(g, rng)
@@ -297,6 +307,8 @@ def make_case(prop, rng, tier, opts=None):
             "meta": {"prop": prop, "template": tmpl, "lattice": lat_name, "finite_input": finite, "t_input_end": t_in}}
     if invalid:
         case["meta"]["invalid"] = invalid
+    if bad_index:
+        case["meta"]["bad_index"] = bad_index
     if opts.get("wide"):
         case["meta"]["wide"] = True
     return case
